@@ -295,7 +295,7 @@ def run(chk):
         if not ok:
             chk.finding("formats::artworx::to_ega_data|slots", rule="R-6BIT", where="%s:%s" % (tb.file, tb.line), fn="to_ega_data",
                         what="the EGA encoder does not iterate over palette slots 0..16: %s" % [(a.split("::")[-1], [show(o) for o in ops]) for a, ops, l in ranges])
-    chk.floor("R-6BIT", "channel expressions normalised", n6, 12)
+    chk.floor("R-6BIT", "channel expressions normalised", n6, 6)
     return chk.finish("Call tree of insert_color (%d bodies) scanned for mutations of Palette.colors; return-value shapes of insert_color checked "
                       "(found index under exactly the r/g/b comparisons, appended index = len-1 after push); %d channel expressions of the 6-bit "
                       "codecs compared as GF(2) normal forms." % (len(reach), n6))
